@@ -113,7 +113,24 @@ def _worker(args: tuple[str, bool, int, int]) -> list[dict[str, Any]]:
             if x in seen_j:
                 rec["jump_only_cycle"] = True
         try:
+            I.set_order_policy, I.set_order_choices = 0, 0
             dtext, smap = P.decompile_exps(c.attrs["routine_infos"], ops1, c.attrs["named_coroutines"])
+            if I.set_order_choices:
+                # the decompiler iterated a set of graph elements in an order-visible way: the library hashes those by address, so the
+                # order is not determined by the program.  Evaluate the other order as well; if the text differs, nothing is decided here.
+                rec["set_order_choices"] = I.set_order_choices
+                try:
+                    I.set_order_policy = 1
+                    dtext2, _sm2 = P.decompile_exps(c.attrs["routine_infos"], ops1, c.attrs["named_coroutines"])
+                except PyExc as e2:
+                    dtext2 = f"<raises {e2.cls_name}>"
+                finally:
+                    I.set_order_policy = 0
+                if dtext2 != dtext:
+                    rec["stage"] = "order-dependent"
+                    rec["text"] = dtext
+                    rec["text_other_order"] = dtext2
+                    continue
         except PyExc as e:
             rec["stage"] = "decompile-raised"
             rec["why"] = f"{e.cls_name}: {e.msg} at {e.where}"
@@ -343,7 +360,14 @@ def summarise(chk: Check, ctx: Any, rule: str, prop: str, thorough: bool) -> Non
         for fam, n in sorted(counts.items()):
             chk.hold(rule, f"{key_prefix}:family:{fam}", anchor, f"{n} programs: {ok_text}")
 
-    done = [r for r in evaluated if r.get("stage") != "unknown"]
+    order_dep = [r for r in evaluated if r.get("stage") == "order-dependent"]
+    chk.extra["roundtrip"]["order_dependent_not_decided"] = len(order_dep)
+    chk.extra["roundtrip"]["programs_with_set_order_choices"] = sum(1 for r in evaluated if r.get("set_order_choices"))
+    if len(order_dep) > max(10, len(evaluated) // 100):
+        r = _smallest(order_dep)
+        chk.unknown(rule, "roundtrip:set-order", anchor, f"for {len(order_dep)} programs the decompiled text depends on the order in which a set of graph elements is iterated "
+                                                         f"(the library hashes them by address); smallest `{r['program']}`")
+    done = [r for r in evaluated if r.get("stage") not in ("unknown", "order-dependent")]
     if prop == "C06":
         raised = [r for r in done if r.get("stage") == "decompile-raised"]
         by_family(raised, "returns", lambda r: f"convert() raises {r['why']} instead of returning text and source map", "convert() returns (text, source map)", done)
